@@ -78,6 +78,32 @@ func Corpus() []*Scenario {
 		{Name: "class/two-topics-same-concatenation", Brokers: 1, Partitions: 12, Partitions1: 2, RetryMax: 2,
 			Msgs: []MsgSpec{{ID: 1, Topic: 0, Partition: 10}, {ID: 2, Topic: 0, Partition: 10}, {ID: 3, Topic: 1, Partition: 0}, {ID: 4, Topic: 0, Partition: 11, Wave: 1},
 				{ID: 5, Topic: 1, Partition: 1, Wave: 1}, {ID: 6, Topic: 1, Partition: 0, Wave: 1}, {ID: 7, Topic: 0, Partition: 1, Wave: 1}}},
+		// the application recycles its message objects (ProducerMessage.clear is what hands them back blank): message 1 is
+		// refused for good and comes back on Errors(); [2] is appended; [3] is answered NotLeaderForPartition and re-sent
+		// whole, message 4 is bounced and opens retry level 1; while the fin marker is held at the retry handler the object of
+		// message 1 is sent again as message 5: it is parked in the level-0 backlog and goes out through flushRetryBuffers,
+		// which stamps only messages without a sequence number (c05_returned_message_is_fresh)
+		{Name: "class/resubmit-error-object-parked", Brokers: 1, Partitions: 1, RetryMax: 2,
+			Msgs: []MsgSpec{{ID: 1, Partition: 0}, {ID: 2, Partition: 0, Wave: 1}, {ID: 3, Partition: 0, Wave: 2}, {ID: 4, Partition: 0, Wave: 3},
+				{ID: 5, Partition: 0, Wave: 4, Reuse: 1}},
+			Script: []Fault{ans(pFatal), ans(pNone), ans(pRetriable)},
+			Gates:  []GateSpec{{Kind: "rh.recv", Nth: 1, Partition: -1, Retries: -1, Fin: true}},
+			Steps: []Step{{Op: "submit", Arg: 0}, {Op: "wait-error", ID: 1}, {Op: "submit", Arg: 1}, {Op: "wait-outcome", ID: 2}, {Op: "submit", Arg: 2},
+				{Op: "wait-requests", Arg: 3}, {Op: "sleep", Arg: 3}, {Op: "submit", Arg: 3}, {Op: "wait-gate", Arg: 0}, {Op: "wait-outcome", ID: 4},
+				{Op: "submit", Arg: 4}, {Op: "sleep", Arg: 3}, {Op: "release", Arg: 0}}},
+		// the same with an object that came back on Successes() (its old stamp is (epoch 0, sequence 0), the current epoch)
+		{Name: "class/resubmit-success-object-parked", Brokers: 1, Partitions: 1, RetryMax: 2,
+			Msgs:   []MsgSpec{{ID: 1, Partition: 0}, {ID: 2, Partition: 0, Wave: 1}, {ID: 3, Partition: 0, Wave: 2}, {ID: 4, Partition: 0, Wave: 3, Reuse: 1}},
+			Script: []Fault{ans(pNone), ans(pRetriable)},
+			Gates:  []GateSpec{{Kind: "rh.recv", Nth: 1, Partition: -1, Retries: -1, Fin: true}},
+			Steps: []Step{{Op: "submit", Arg: 0}, {Op: "wait-outcome", ID: 1}, {Op: "submit", Arg: 1}, {Op: "wait-requests", Arg: 2}, {Op: "sleep", Arg: 3},
+				{Op: "submit", Arg: 2}, {Op: "wait-gate", Arg: 0}, {Op: "wait-outcome", ID: 3}, {Op: "submit", Arg: 3}, {Op: "sleep", Arg: 3}, {Op: "release", Arg: 0}}},
+		// recycled objects on the ordinary path (partition not retrying), from both channels, one of them to another partition
+		{Name: "class/resubmit-plain", Brokers: 1, Partitions: 2, RetryMax: 2,
+			Msgs: []MsgSpec{{ID: 1, Partition: 0}, {ID: 2, Partition: 0}, {ID: 3, Partition: 1}, {ID: 4, Partition: 0, Wave: 1, Reuse: 2}, {ID: 5, Partition: 0, Wave: 1, Reuse: 3},
+				{ID: 6, Partition: 1, Wave: 1, Reuse: 1}},
+			Script: []Fault{ans(pFatal, pNone)},
+			Steps:  []Step{{Op: "submit", Arg: 0}, {Op: "wait-outcome", ID: 1}, {Op: "wait-outcome", ID: 2}, {Op: "wait-outcome", ID: 3}, {Op: "submit", Arg: 1}}},
 		{Name: "class/exhausted-alone", Brokers: 1, Partitions: 1, RetryMax: 1, FlushMsgs: 2, FlushFreqMs: 300,
 			Msgs:   []MsgSpec{{ID: 1, Partition: 0}, {ID: 2, Partition: 0}, {ID: 3, Partition: 0, Wave: 1}},
 			Script: []Fault{ans(pRetriable), ans(pRetriable)},
@@ -91,6 +117,9 @@ var fatalCodes = []int16{10, 2 + 85, 1 + 16} // MessageSizeTooLarge, PolicyViola
 // Gen draws one scenario. class: 0 = per-partition retriable answers only (meant to stay in class),
 // 1 = adds fatal answers / missing blocks, 2 = adds connection-level failures.
 func Gen(r *rand.Rand, name string, class int, big bool) *Scenario {
+	if !big && r.Intn(10) == 0 {
+		return genParked(r, name, class)
+	}
 	sc := &Scenario{Name: name, Brokers: 1 + r.Intn(2), Partitions: 1 + r.Intn(3), RetryMax: 1 + r.Intn(3)}
 	switch r.Intn(3) {
 	case 1:
@@ -190,6 +219,41 @@ func Gen(r *rand.Rand, name string, class int, big bool) *Scenario {
 		}
 		return sc
 	}
+	// the application recycles message objects: a later wave is sent in objects that came back for earlier messages
+	if waves > 1 && r.Intn(4) == 0 {
+		maxWave := 0
+		for _, m := range sc.Msgs {
+			if m.Wave > maxWave {
+				maxWave = m.Wave
+			}
+		}
+		used := map[int64]bool{}
+		waits := map[int][]int64{}
+		for i := range sc.Msgs {
+			m := &sc.Msgs[i]
+			if m.Wave == 0 || r.Intn(3) == 0 {
+				continue
+			}
+			var cands []int64
+			for _, o := range sc.Msgs {
+				if o.Wave < m.Wave && !used[o.ID] {
+					cands = append(cands, o.ID)
+				}
+			}
+			if len(cands) > 0 {
+				m.Reuse = cands[r.Intn(len(cands))]
+				used[m.Reuse] = true
+				waits[m.Wave] = append(waits[m.Wave], m.Reuse)
+			}
+		}
+		for w := 0; w <= maxWave; w++ {
+			for _, id := range waits[w] {
+				sc.Steps = append(sc.Steps, Step{Op: "wait-outcome", ID: id})
+			}
+			sc.Steps = append(sc.Steps, Step{Op: "submit", Arg: w})
+		}
+		return sc
+	}
 	// steering: hold a goroutine at a point while the next wave is submitted
 	if waves > 1 && r.Intn(3) == 0 {
 		kinds := []string{"bridge.send", "bp.response", "retryBatch.start", "pp.recv", "bp.recv"}
@@ -207,6 +271,73 @@ func Gen(r *rand.Rand, name string, class int, big bool) *Scenario {
 				sc.Steps = append(sc.Steps, Step{Op: "sleep", Arg: 2})
 			}
 		}
+	}
+	return sc
+}
+
+// genParked draws a variant of class/resubmit-*-parked: an object that came back to the application (on either channel)
+// is sent again while its new partition is in a retry level with the fin marker held, so that it is parked and flushed.
+func genParked(r *rand.Rand, name string, class int) *Scenario {
+	sc := &Scenario{Name: name, Brokers: 1, Partitions: 1 + r.Intn(2), RetryMax: 2 + r.Intn(2)}
+	p := int32(r.Intn(sc.Partitions))
+	other := int32(r.Intn(sc.Partitions))
+	retr := PFault{Kind: "err-before", Err: retriableCodes[r.Intn(len(retriableCodes))]}
+	id := int64(0)
+	next := func(part int32, wave int, reuse int64) int64 {
+		id++
+		sc.Msgs = append(sc.Msgs, MsgSpec{ID: id, Partition: part, Wave: wave, Reuse: reuse})
+		return id
+	}
+	served := 0
+	// the objects that come back: one or two, failed for good (class >= 1 only) or successful, of this or the other partition
+	var back []int64
+	nback := 1 + r.Intn(2)
+	for i := 0; i < nback; i++ {
+		part := p
+		if i > 0 {
+			part = other
+		}
+		m := next(part, i, 0)
+		back = append(back, m)
+		if class >= 1 && i == 0 && r.Intn(2) == 0 {
+			// (the request carries this message only: block 0)
+			sc.Script = append(sc.Script, ans(PFault{Kind: "err-before", Err: fatalCodes[r.Intn(len(fatalCodes))]}))
+		} else {
+			sc.Script = append(sc.Script, ans())
+		}
+		sc.Steps = append(sc.Steps, Step{Op: "submit", Arg: i}, Step{Op: "wait-outcome", ID: m})
+		served++
+	}
+	w := nback
+	if r.Intn(2) == 0 { // something appended in between
+		m := next(p, w, 0)
+		sc.Script = append(sc.Script, ans())
+		sc.Steps = append(sc.Steps, Step{Op: "submit", Arg: w}, Step{Op: "wait-outcome", ID: m})
+		served++
+		w++
+	}
+	// the batch that is answered with a retriable error, and the message bounced behind it
+	next(p, w, 0)
+	sc.Script = append(sc.Script, ans(retr))
+	served++
+	sc.Steps = append(sc.Steps, Step{Op: "submit", Arg: w}, Step{Op: "wait-requests", Arg: served}, Step{Op: "sleep", Arg: 3})
+	w++
+	bounced := next(p, w, 0)
+	sc.Gates = []GateSpec{{Kind: "rh.recv", Nth: 1, Partition: -1, Retries: -1, Fin: true}}
+	sc.Steps = append(sc.Steps, Step{Op: "submit", Arg: w}, Step{Op: "wait-gate", Arg: 0}, Step{Op: "wait-outcome", ID: bounced})
+	w++
+	// the recycled objects, parked; possibly a new object among them
+	for _, b := range back {
+		next(p, w, b)
+	}
+	if r.Intn(2) == 0 {
+		next(p, w, 0)
+	}
+	sc.Steps = append(sc.Steps, Step{Op: "submit", Arg: w}, Step{Op: "sleep", Arg: 3}, Step{Op: "release", Arg: 0})
+	if r.Intn(2) == 0 {
+		w++
+		next(int32(r.Intn(sc.Partitions)), w, 0)
+		sc.Steps = append(sc.Steps, Step{Op: "sleep", Arg: 3}, Step{Op: "submit", Arg: w})
 	}
 	return sc
 }
